@@ -108,8 +108,11 @@ func (b *BoundedIterator) Seek(target []byte) bool {
 		target = b.start
 	}
 
-	// If target is at or after end bound, the seek will fail
+	// If target is at or after end bound, the seek will fail. Still move
+	// the underlying iterator: it lands outside the bounds (or nowhere), so
+	// that Valid() does not keep reporting the position of an earlier seek
 	if b.end != nil && bytes.Compare(target, b.end) >= 0 {
+		b.Iterator.Seek(target)
 		return false
 	}
 
